@@ -162,3 +162,67 @@ Theorem C01_rep_elem_nonproductive_refuted :
     run g c orc false fuel input = SyntaxErr 1.
 Proof. exists g_repsup, c_default, (fun _ _ => None), 50, [97;97;98]%N. exact refuted_repsup. Qed.
 Print Assumptions C01_rep_elem_nonproductive_refuted.
+
+From TxV Require Proofs.PegTerm Proofs.SpecTotal.
+
+(* C01_refinement_total: the refinement theorem without the "if the interpreter terminates" proviso.  For
+   every table in the class wfg that passes the termination analysis of Proofs/PegTerm.v (no left
+   recursion, no repetition over an element that is truthy without consuming; both conditions decidable
+   and evaluated per case), every config, every input, every oracle whose matches are non-empty and stay
+   inside the input, and EVERY fuel from the computable bound fuel_bound on: the interpreter returns a
+   verdict (it neither runs out of fuel nor crashes), it accepts exactly when the documented semantics
+   accept, and the tree clauses of C01_refinement_partial hold (hence, by C01_model_equality, the models). *)
+Theorem C01_refinement_total :
+  forall g pf c orc input f,
+    wfg g pf = true -> PegTerm.terminating PegTerm.none_nullable g = true ->
+    PegTerm.orc_sane g input orc -> orc_pos orc ->
+    PegTerm.fuel_bound PegTerm.none_nullable g input <= f ->
+    (exists r ts p, run g c orc false f input = Parsed r /\ spec_run g c orc f input = SOk ts p /\
+                    (nosep g = true -> erase_all ts = flatten r) /\
+                    exists tsq, spec_run_q g c orc f input = SOk tsq p /\ erase_all tsq = flatten r) \/
+    (exists e, run g c orc false f input = SyntaxErr e /\ spec_run g c orc f input = SFail).
+Proof. exact SpecTotal.refinement_total. Qed.
+Print Assumptions C01_refinement_total.
+
+(* tables in the class never crash the interpreter *)
+Theorem C01_no_crash :
+  forall g pf c orc fuel input w, wfg g pf = true -> run g c orc false fuel input = Aborted w -> w = 0.
+Proof. exact SpecTotal.wfg_no_crash. Qed.
+Print Assumptions C01_no_crash.
+
+Example C01_refinement_total_nonvacuous :
+  wfg g_rich 24 = true /\ PegTerm.terminating PegTerm.none_nullable g_rich = true /\
+  PegTerm.orc_sane g_rich in_rich (orc_of t_rich) /\ orc_pos (orc_of t_rich) /\
+  PegTerm.fuel_bound PegTerm.none_nullable g_rich in_rich = 106 /\
+  accepts (run g_rich c_default (orc_of t_rich) false 106 in_rich) = true.
+Proof. exact SpecTotal.rich_total_nonvacuous. Qed.
+Print Assumptions C01_refinement_total_nonvacuous.
+
+(* eolterm repetitions are in the class (when the table has no rule-level ws modifier) ... *)
+Example C01_eolterm_in_class_nonvacuous :
+  wfg SpecTotal.g_eol 24 = true /\
+  accepts (run SpecTotal.g_eol c_default (fun _ _ => None) false 50 [97;32;97;10;101;110;100]%N) = true /\
+  accepts (run SpecTotal.g_eol c_default (fun _ _ => None) false 50 [97;10;97;10;101;110;100]%N) = false.
+Proof. exact SpecTotal.eol_in_class. Qed.
+Print Assumptions C01_eolterm_in_class_nonvacuous.
+
+(* ... and the boundary: a rule-level ws inside an eolterm repetition is restored wrongly by the interpreter
+   (the newline-stripped set becomes the real one): Model: xs+=A[eolterm] 'end'; A[ws=' ']: 'a'; rejects
+   "a a\nend" at the newline *)
+Theorem C01_eolterm_rule_ws_refuted :
+  exists g c orc fuel input,
+    wfg g 24 = false /\ eol_ws_ok g = false /\
+    saccepts (spec_run g c orc fuel input) = true /\
+    run g c orc false fuel input = SyntaxErr 3.
+Proof. exists SpecTotal.g_eolws, c_default, (fun _ _ => None), 50, [97;32;97;10;101;110;100]%N. exact SpecTotal.refuted_eolws. Qed.
+Print Assumptions C01_eolterm_rule_ws_refuted.
+
+(* a predicate as the body of a rule stays outside the class: the rule matches the empty string and yields no
+   node (Model: a=A 'x'; A: &'x'; on "x") - the nullable-rule deviation *)
+Theorem C01_predicate_rule_root_refuted :
+  exists g c orc fuel input,
+    wfg g 24 = false /\
+    run_tree (run g c orc false fuel input) = [NT 0 [NT 1 [T 5 0 1 true]; T 6 1 0 true]] /\
+    spec_tree (spec_run g c orc fuel input) = [NT 0 [NT 1 [NT 2 [NT 3 []]; T 5 0 1 true]; T 6 1 0 true]].
+Proof. exists SpecTotal.g_predroot, c_default, (fun _ _ => None), 50, [120]%N. exact SpecTotal.refuted_predroot. Qed.
+Print Assumptions C01_predicate_rule_root_refuted.
